@@ -6,7 +6,8 @@ bytes at fixed offsets; UDP's "computed 0 is sent as 0xffff / stored 0 over IPv4
 (1) Apalache proves the loop of gopacket.FoldChecksum (ChecksumFoldMC.tla) equal to the reference fold for all 2^32
 accumulators.  (2) TLC checks an ideal sender/receiver against Judge on every small packet and every single-bit flip
 (ChecksumMC.tla: satisfiable, not over-strict, every corruption detected, corrupted events rejected).  (3) The Go driver
-harness/cmd/cksum records FoldChecksum, ComputeChecksum, serialization with ComputeChecksums, VerifyChecksum and
+harness/cmd/cksum records FoldChecksum, ComputeChecksum, serialization with ComputeChecksums (fresh structs, the same
+layer objects a second time, decoded layers re-serialized, structs with a garbage Checksum field), VerifyChecksum and
 Packet.VerifyChecksums on produced and single-bit-flipped packets; ChecksumTrace.tla recomputes every expected value
 and judges every event."""
 import json, os, re, shutil, subprocess, time, threading
@@ -219,7 +220,10 @@ def run(ctx):
                     j -= 1
                 if j >= 0:
                     ctxev = [ev[j], e]
-            V.reject({"reason": b["reason"], "proto": b["proto"], "ipver": b["v"]},
+            sig = {"reason": b["reason"], "proto": b["proto"], "ipver": b["v"]}
+            if b.get("variant"):
+                sig["variant"] = b["variant"]      # serialization from re-used / decoded / pre-filled layer structs
+            V.reject(sig,
                      {"bad": b, "expected_by_Checksum_tla": b.get("expected"), "events": ctxev,
                       "hex": " ".join("%02x" % x for x in e.get("bytes", []))})
     if harness_bad:
